@@ -874,6 +874,23 @@ pub fn on_epoch(w: &mut World, p: usize, g: usize, how: &str) -> VResult<()> {
             }
         }
     }
+    // C02: the commit secret of a commit with an update path is fresh. Whoever knew the previous init secret (every
+    // member of the previous epoch, the removed ones included) must not be able to derive the new epoch from public
+    // data - which they could if the commit secret were the all-zero value of a path-less commit.
+    if let (true, false, true, Some(init_prev)) = (has_path, msg.external, psk_known, &init_prev) {
+        let pre0 = alg.extract(init_prev, &vec![0u8; alg.len()]);
+        let j0 = alg.expand_with_label(&pre0, "joiner", &rec.ctx, alg.len());
+        let re0 = derive_epoch(alg, &j0, &psk, &rec.ctx);
+        w.stats.check("commit-secret-of-a-path-commit-is-not-predictable");
+        if h2.get("authentication") == Some(&re0.authentication) || h2.get("exporter") == Some(&re0.exporter) {
+            return Err(viol(
+                w,
+                "key-schedule",
+                "epoch-derivable-from-previous-init-secret".into(),
+                format!("epoch {epoch} of g{g}: commit {cid} has an update path, yet its epoch secrets equal the key schedule run with an all-zero commit secret: every member of epoch {} (removed ones included) can derive the epoch authenticator and exporter from public data", epoch - 1),
+            ));
+        }
+    }
     let (Some(joiner), true) = (joiner, psk_known) else {
         w.stats.probe("epoch-without-reference-joiner-secret");
         return Ok(());
